@@ -173,7 +173,9 @@ func init() {
 		"context.WithCancel":        modelCtxDerive,
 		"context.WithDeadline":      modelCtxDerive,
 		"context.WithDeadlineCause": modelCtxDerive,
-		"context.Background":        modelHavoc,
+		"context.Background": func(fc *FnCtx, fr *Frame, st *State, instr ssa.Instruction, c *ssa.CallCommon, args []Val, rt types.Type) Val {
+			return fc.decls.constant("ctxBackground", SInt) // one value, named ctxBackground in contracts
+		},
 		"context.Cause": func(fc *FnCtx, fr *Frame, st *State, instr ssa.Instruction, c *ssa.CallCommon, args []Val, rt types.Type) Val {
 			fc.declareSentinels()
 			res := havocRes(fc, st, "cause", rt)
